@@ -658,7 +658,10 @@ def evalMembers (c : Ctx) (g : Option T) (s : T) (dflt : Bool) : List (Str × Js
        | .prop p td =>
          if td.cont = .language then (evalLangMap s p g ms').map fun qs => (qs, n)
          else if td.cont = .list && !hasKey kList ms' then
-           list1Wrap s p g n (evalItem c td g (.bnode (.fresh n)) rdfFirst (.obj ms') (n + 1))
+           -- a single value object whose value is `null` would be dropped by expansion (no list at all): outside
+           if listItemOK c (.obj ms') then
+             list1Wrap s p g n (evalItem c td g (.bnode (.fresh n)) rdfFirst (.obj ms') (n + 1))
+           else none
          else evalItem c td g s p (.obj ms') n
        | .ignored => some ([], n)
        | .outside => none)
